@@ -59,17 +59,27 @@ LedgersOf(n, dates, tmpls) ==
         ds \in {f \in [1..n -> dates] : NonDecreasing(f, n)}, ts \in [1..n -> tmpls] }
 
 AllT == 1..9
-\* quick: every 1-transaction ledger; 2 transactions: all 81 template pairs on dates {2, 4} and the interacting templates
-\* (salary, card, conversion, sale with gains) on all date pairs; 3 transactions over salary / conversion / sale
-LedgersQuick == LedgersOf(0, {2}, AllT) \cup LedgersOf(1, 2..4, AllT) \cup LedgersOf(2, {2, 4}, AllT)
-                  \cup LedgersOf(2, 2..4, {1, 3, 4, 6}) \cup LedgersOf(3, 2..4, {1, 4, 6})
-\* thorough: <= 2 transactions on dates 2..5 (all templates); 3 transactions: all 729 template triples on dates 2..4 and
-\* four interacting templates on dates 2..5; 4 transactions over salary / conversion / sale on dates 2..4
-LedgersThorough == LedgersOf(0, {2}, AllT) \cup LedgersOf(1, 2..5, AllT) \cup LedgersOf(2, 2..5, AllT)
-                  \cup LedgersOf(3, 2..4, AllT) \cup LedgersOf(3, 2..5, {1, 3, 4, 6}) \cup LedgersOf(4, 2..4, {1, 4, 6})
-LedgersCover == LedgersOf(0, {2}, AllT) \cup LedgersOf(1, {3}, {1, 4, 6}) \cup LedgersOf(2, {2, 4}, {1, 4})
-LedgersNone == LedgersOf(0, {2}, AllT)
-LedgersTiny == LedgersOf(1, 2..4, AllT) \cup LedgersOf(2, 2..4, {1, 2, 4, 6})
+(* The ledger sets are selected by name through an operator WITH a parameter: TLC evaluates every zero-arity constant
+   definition eagerly at start-up, in every run -- tens of thousands of ledgers that most runs never use. *)
+LedgerSet(name) ==
+    CASE name = "none" -> LedgersOf(0, {2}, AllT)
+      \* quick: every 1-transaction ledger; 2 transactions: all 81 template pairs on dates {2, 4} and the interacting
+      \* templates (salary, card, conversion, sale with gains) on all date pairs; 3 transactions over salary / conversion / sale
+      [] name = "quick" ->
+            LedgersOf(0, {2}, AllT) \cup LedgersOf(1, 2..4, AllT) \cup LedgersOf(2, {2, 4}, AllT)
+              \cup LedgersOf(2, 2..4, {1, 3, 4, 6}) \cup LedgersOf(3, 2..4, {1, 4, 6})
+      \* thorough: <= 2 transactions on dates 2..5 (all templates); 3 transactions: all 729 template triples on dates 2..4
+      \* and four interacting templates on dates 2..5; 4 transactions over salary / conversion / sale on dates 2..4
+      [] name = "thorough" ->
+            LedgersOf(0, {2}, AllT) \cup LedgersOf(1, 2..5, AllT) \cup LedgersOf(2, 2..5, AllT)
+              \cup LedgersOf(3, 2..4, AllT) \cup LedgersOf(3, 2..5, {1, 3, 4, 6}) \cup LedgersOf(4, 2..4, {1, 4, 6})
+      \* small instance for the coverage and the non-vacuity runs
+      [] name = "cover" ->
+            LedgersOf(0, {2}, AllT) \cup LedgersOf(1, {3}, {1, 4, 6}) \cup LedgersOf(2, {2, 4}, {1, 4})
+InitNone == InitWith(LedgerSet("none"))
+InitQuick == InitWith(LedgerSet("quick"))
+InitThorough == InitWith(LedgerSet("thorough"))
+InitCover == InitWith(LedgerSet("cover"))
 
 Open05 == 0..5
 Close05 == -1..5
